@@ -152,66 +152,102 @@ package spdxexp
 //@ fn TokLen(s string) int
 //@ fn TokSeq(s string) seq[token]
 
+// Buffer / offset relation (lexical level of C05, and C15).  The scanner works on a private copy of the caller's
+// string which it rewrites when it meets an unlisted 'X-or-later' ('X+' replaces it).  orig is the caller's string
+// (ghost); g = exp.index + exp.removed is the position in orig that corresponds to exp.index.  Either the unread
+// part of the buffer is the unread part of orig (syncd), or a synthesised '+' is pending in front of it (pend).
+// No character of orig is dropped or invented; offsets cited in messages are g.
+//@ pred syncd(e *expressionStream, orig string) = 0 <= e.index && e.index <= len(e.expression) && 0 <= e.index + e.removed && e.index + e.removed <= len(orig) && e.expression[e.index:] == orig[e.index + e.removed:]
+//@ pred pend(e *expressionStream, orig string) = 0 <= e.index && e.index < len(e.expression) && 0 <= e.index + e.removed && e.index + e.removed + 1 <= len(orig) && e.expression[e.index:] == "+" + orig[e.index + e.removed + 1:]
+//@ pred rel(e *expressionStream, orig string) = syncd(e, orig) || pend(e, orig)
+
 //@ func scan
 //@   modifies nothing
+//@   ghostlet orig = expression
 //@   defines[C05] !isErr(result1) <==> Lexable(expression)
 //@   defines[C05] !isErr(result1) ==> len(result0) == TokLen(expression) && elems(result0) == TokSeq(expression)
 //@   loop 0:
 //@     invariant[C03] okExp(exp) && fresh(exp)
 //@     invariant[C03] tokens == nil || fresh(tokens)
+//@     invariant[C05,C15] rel(exp, orig) && !isErr(exp.err)
 //@ end
 
 //@ func (*expressionStream).parseToken
+//@   ghostparam orig string
 //@   requires okExp(exp) && exp.index < len(exp.expression)
-//@   modifies exp.index, exp.err, exp.expression
+//@   requires[C05,C15] rel(exp, orig) && !isErr(exp.err)
+//@   modifies exp.index, exp.err, exp.expression, exp.removed
 //@   ensures[C03] okExp(exp)
+//@   ensures[C05,C15] !isErr(exp.err) ==> rel(exp, orig) && exp.index > old(exp.index) - 9
 //@ end
 
 //@ func (*expressionStream).readOperator
+//@   ghostparam orig string
 //@   requires okExp(exp)
+//@   requires[C05,C15] rel(exp, orig) && !isErr(exp.err)
 //@   modifies exp.index, exp.err
 //@   ensures[C03] okExp(exp)
 //@   ensures[C03] result == nil && !isErr(exp.err) ==> exp.index == old(exp.index)
 //@   ensures[C03] !isErr(old(exp.err)) && result != nil ==> !isErr(exp.err)
+//@   ensures[C05,C15] result != nil ==> syncd(exp, orig) && exp.index >= old(exp.index)
+//@   ensures[C05,C15] result == nil && !isErr(exp.err) ==> syncd(exp, orig)
 //@   loop 0:
 //@     invariant[C03] okExp(exp) && exp.err == old(exp.err)
 //@     invariant[C03] len(op) == 0 && exp.index == old(exp.index)
+//@     invariant[C05,C15] len(possibilities) == 7 && possibilities[6] == "+" && forall k :: 0 <= k && k < $i ==> !HasPrefix(exp.expression[exp.index:], possibilities[k])
 //@ end
 
 //@ func (*expressionStream).readID
+//@   ghostparam orig string
 //@   requires okExp(exp)
+//@   requires[C05,C15] syncd(exp, orig)
 //@   modifies exp.index, exp.err
 //@   ensures[C03] okExp(exp)
 //@   ensures[C03] exp.index == old(exp.index) + len(result)
 //@   ensures[C03] isErr(exp.err) <==> (isErr(old(exp.err)) || len(result) == 0)
+//@   ensures[C05,C15] syncd(exp, orig) && result == exp.expression[old(exp.index):exp.index] && result == orig[old(exp.index) + exp.removed:exp.index + exp.removed]
+//@   assert[C15] call fmt.Sprintf#0: 0 <= arg1 && arg1 <= len(orig) && arg1 == exp.index + exp.removed
 //@ end
 
 //@ func (*expressionStream).readDocumentRef
+//@   ghostparam orig string
 //@   requires okExp(exp)
+//@   requires[C05,C15] syncd(exp, orig)
 //@   modifies exp.index, exp.err
 //@   ensures[C03] okExp(exp)
 //@   ensures[C03] result == nil && !isErr(exp.err) ==> exp.index == old(exp.index)
+//@   ensures[C05,C15] !isErr(exp.err) ==> syncd(exp, orig) && exp.index >= old(exp.index)
 //@ end
 
 //@ func (*expressionStream).readLicenseRef
+//@   ghostparam orig string
 //@   requires okExp(exp)
+//@   requires[C05,C15] syncd(exp, orig)
 //@   modifies exp.index, exp.err
 //@   ensures[C03] okExp(exp)
 //@   ensures[C03] result == nil && !isErr(exp.err) ==> exp.index == old(exp.index)
+//@   ensures[C05,C15] !isErr(exp.err) ==> syncd(exp, orig) && exp.index >= old(exp.index)
 //@ end
 
 //@ func (*expressionStream).readLicense
+//@   ghostparam orig string
 //@   requires okExp(exp)
-//@   modifies exp.index, exp.err, exp.expression
+//@   requires[C05,C15] syncd(exp, orig)
+//@   modifies exp.index, exp.err, exp.expression, exp.removed
 //@   ensures[C03] okExp(exp)
 //@   ensures[C03] result != nil || isErr(exp.err)
+//@   ensures[C05,C15] !isErr(exp.err) ==> rel(exp, orig) && exp.index > old(exp.index) - 9
+//@   assert[C15] call fmt.Sprintf#0: 0 <= arg2 && arg2 + len(arg1) <= len(orig) && orig[arg2:arg2 + len(arg1)] == arg1
 //@ end
 
 //@ func (*expressionStream).normalizeLicense
+//@   ghostparam orig string
 //@   requires okExp(exp) && len(license) <= exp.index
-//@   modifies exp.index, exp.expression
+//@   requires[C05,C15] syncd(exp, orig) && exp.expression[exp.index - len(license):exp.index] == license && len(license) >= 1 && exp.index + exp.removed >= len(license)
+//@   modifies exp.index, exp.expression, exp.removed
 //@   ensures[C03] okExp(exp)
-//@   ensures[C03] result == nil ==> exp.expression == old(exp.expression)
+//@   ensures[C03] result == nil ==> exp.expression == old(exp.expression) && exp.index == old(exp.index) && exp.removed == old(exp.removed)
+//@   ensures[C05,C15] result != nil ==> rel(exp, orig) && exp.index >= old(exp.index) - 9
 //@ end
 
 //@ func licenseLookup
